@@ -49,6 +49,11 @@ impl<'t, 'a> Gen<'t, 'a> {
         v
     }
     fn path(&mut self, unique: bool) -> PathSpec {
+        if !unique && self.t.chance(2) {
+            // an input path that expands to nothing (an undefined variable): it stays in its section as the empty name
+            self.features.push("empty-expansion-input");
+            return PathSpec { val: vec![Piece::Var("undefined_zz".into())], respell: None, dir_suffix: None };
+        }
         let mut v: Val = vec![];
         if self.t.chance(if self.o.vars_heavy { 35 } else { 15 }) {
             v.push(Piece::Var(self.var_name()));
